@@ -14,8 +14,8 @@ EXPLANATION = (
     "languages). P3: every model element constructed by the parser (Feature, Rule, Background, Scenario, "
     "ScenarioOutline, Examples, Step, Tag, Table, table rows, doc-string Text) receives the parser's current line (Text: "
     "the line of the opening quotes), and in every line loop the line counter is incremented before anything can skip "
-    "the line. P5: the cell split pattern, as a regex AST, is 'pipe not preceded by a backslash', the row is split "
-    "without its outer pipes, and exactly the escaped pipe is unescaped. P6: every builder that hands the pending tags to a "
+    "the line. P5: Parser.action_table constant-folded on 13 concrete rows (escaped pipes, empty cells, padding, "
+    "unicode, a trailing backslash): the cells are the row split at unescaped pipes, stripped, with only the escaped pipe unescaped. P6: every builder that hands the pending tags to a "
     "model element rebinds self.tags to a fresh list afterwards (tags belong to exactly the statement they precede). P7: action_steps / action_multiline_text "
     "evaluated on concrete lines (constant folding): a doc-string opened by one delimiter kind and containing lines of "
     "the other kind ends only at its own delimiter, and its text is the lines in between minus the opening indent. P8: escape_cell (renderer) composed with action_table's row split, both "
@@ -51,7 +51,7 @@ def run(chk, ix, tier):
     chk.require_instances("P2", 3)
     chk.require_instances("P1", 60)
     chk.require_instances("P3", 12)
-    chk.require_instances("P5", 3)
+    chk.require_instances("P5", 13)
     chk.require_instances("P6", 5)
     chk.require_instances("P7", 2)
     chk.require_instances("P8", 10)
